@@ -36,6 +36,9 @@ type wcfg struct {
 	IntervalNs int64 `json:"interval_ns"`
 	StableNs   int64 `json:"stable_ns"`
 	CooldownNs int64 `json:"cooldown_ns"`
+	// LatNs[i]: how long check #i takes before it answers (the production predicate is an HTTP GET without a
+	// timeout); the clock moves inside the predicate. Empty = every check answers at once.
+	LatNs []int64 `json:"predicate_latency_ns,omitempty"`
 }
 
 type obsT struct {
@@ -119,6 +122,9 @@ func runWatcher(c wcfg, seq []bool) (*trace, bool) {
 				runtime.Goexit()     // ends the watcher goroutine (it has no Stop)
 			}
 			v := seq[next]
+			if next < len(c.LatNs) && c.LatNs[next] > 0 {
+				clk.Set(clk.Now().Add(time.Duration(c.LatNs[next])))
+			}
 			tr.Obs = append(tr.Obs, obsT{I: next, V: v, T: int64(clk.Now().Sub(t0))})
 			next++
 			return v
@@ -307,6 +313,14 @@ func genRandom(r *sim.Rand) (wcfg, []bool) {
 			seq = append(seq, v)
 		}
 		v = !v
+	}
+	if r.Chance(1, 3) { // some checks are slow
+		c.LatNs = make([]int64, len(seq))
+		for i := range c.LatNs {
+			if r.Chance(1, 4) {
+				c.LatNs[i] = sim.Pick(r, []int64{unit / 2, unit, 2 * unit, 4 * unit, 9 * unit})
+			}
+		}
 	}
 	return c, seq
 }
